@@ -927,6 +927,45 @@ def r41(ctx, repo):
                     "every refresh tests whether the parent changed",
                     "a path through the refresh skips the parent-change "
                     "test")
+    # every parameter of apply_filter (`force`: features whose ranges must
+    # be re-evaluated because their data changed) reaches the parent refresh
+    # AND the evaluation of the child's own filter
+    a_ = af.args
+    plain = [x.arg for x in a_.args[1:] + a_.kwonlyargs]
+
+    def forwards(call):
+        miss = []
+        used = set()
+        for x in list(call.args) + [k.value for k in call.keywords]:
+            used |= names_in(x)
+        if a_.vararg and not any(isinstance(x, ast.Starred) and names_in(
+                x) == {a_.vararg.arg} for x in call.args):
+            miss.append("*" + a_.vararg.arg)
+        if a_.kwarg and not any(k.arg is None and names_in(k.value) == {
+                a_.kwarg.arg} for k in call.keywords):
+            miss.append("**" + a_.kwarg.arg)
+        miss += [p_ for p_ in plain if p_ not in used]
+        return miss
+    for what, stmts, pred in (
+            ("the parent refresh", pref,
+             lambda c: call_name(c) == "self.hparent.apply_filter"),
+            ("the child's own filter update", sup,
+             lambda c: last_attr(c) == "apply_filter" and isinstance(
+                 c.func, ast.Attribute) and isinstance(
+                 c.func.value, ast.Call) and call_name(c.func.value)
+             == "super")):
+        calls = [c for st in stmts for c in walk(st)
+                 if isinstance(c, ast.Call) and pred(c)]
+        miss = sorted({m for c in calls for m in forwards(c)})
+        ctx.ob("R4.1", bool(calls) and not miss,
+               f"all arguments of apply_filter are passed on to {what}"
+               if calls and not miss else
+               f"{what} does not receive {miss} of apply_filter: "
+               f"`force=[feature]` (re-evaluate a range after the feature "
+               f"data changed) has no effect at that level, the stale box "
+               f"filter keeps selecting the child's events",
+               node=(calls or [af])[0],
+               label=f"arguments forwarded to {what}")
     rj = repo.func(BASE, "RTDC_Hierarchy.rejuvenate")
     ok = any(call_name(c) == "self.apply_filter" for c in find_calls(
         rj, attr="apply_filter"))
@@ -2096,7 +2135,8 @@ def run(ctx):
     thorough = ctx.tier == "thorough"
     ctx.rule("R4.1", "refresh order in RTDC_Hierarchy.apply_filter "
              "(retrieve ≺ parent refresh ≺ invalidate ≺ repopulate/config ≺ "
-             "filter re-creation ≺ filter update)", minimum=12)
+             "filter re-creation ≺ filter update); arguments forwarded",
+             minimum=14)
     ctx.rule("R4.2", "reset-set ⊇ memo-set (own, Child* objects, inherited)",
              minimum=14)
     ctx.rule("R4.3", "Child* accessors return the parent's data at the "
@@ -2706,4 +2746,24 @@ TWINS = list(TWINS) + [
          "\n"
          "        if len(cidx):\n"
          "            self.manual[cidx] = False\n")),
+]
+
+# seed /verif/seeded/C03_15
+MUTANTS = list(MUTANTS) + [
+    ("force not passed to the child's own filter update (seeded)", BASE,
+     ("        super(RTDC_Hierarchy, self).apply_filter(*args, **kwargs)",
+      "        super(RTDC_Hierarchy, self).apply_filter()"), "R4.1"),
+    ("force not passed to the parent refresh", BASE,
+     ("        self.hparent.apply_filter(*args, **kwargs)",
+      "        self.hparent.apply_filter()"), "R4.1"),
+]
+
+TWINS = list(TWINS) + [
+    ("apply_filter with an explicit force parameter", BASE,
+     [("    def apply_filter(self, *args, **kwargs):",
+       "    def apply_filter(self, force=None):"),
+      ("        self.hparent.apply_filter(*args, **kwargs)",
+       "        self.hparent.apply_filter(force=force)"),
+      ("        super(RTDC_Hierarchy, self).apply_filter(*args, **kwargs)",
+       "        super(RTDC_Hierarchy, self).apply_filter(force)")]),
 ]
